@@ -16,7 +16,7 @@ RULE = (
     '{cholesky, default, cg+slq (statistical, K repetitions)}, seed); distinct = cell without seed; non-trivial iff n>=2 and at least one '
     'gradient component is > 1e-6'
 )
-REQUIRED = ["mll_value", "mll_grad", "loo_value", "priors_enumerated", "sum_mll_is_mean", "mll_value_stochastic"]
+REQUIRED = ["mll_value", "mll_grad", "added_terms_enumerated", "loo_value", "priors_enumerated", "sum_mll_is_mean", "mll_value_stochastic"]
 ASSUMPTIONS = [
     "reference prior densities are torch.distributions of the documented family evaluated at the constrained value read through the public property",
     "gradients on the dense paths are compared at max(1e-7, 1e-14*cond(K+S)) relative+absolute; cells with cond(K+S) > 1e9 are decided on the value only",
@@ -58,6 +58,11 @@ def cases(tier, seed):
             for obj in ("loo", "mll"):
                 yield {"kernel": KERNELS[rep % 2], "mean": "constant", "lik": rnd.choice(["gauss", "fixed"]), "n": n_, "d": 1, "batch": b_, "priors": "none", "objective": obj,
                        "path": "cholesky", "seed": rnd.randrange(10**6)}
+        # registered added loss terms, on modules reached directly and through plain torch containers
+        for ki in (0, 2):
+            for b_ in ([], [2]):
+                yield {"kernel": KERNELS[ki], "mean": "constant", "lik": rnd.choice(["gauss", "fixed+learn"]), "n": rnd.choice([2, 5]), "d": 1, "batch": b_, "priors": rnd.choice(["none", "independent"]),
+                       "objective": "mll", "path": rnd.choice(["cholesky", "default"]), "added": True, "seed": rnd.randrange(10**6)}
         # priors handed to the constructors (`<parameter>_prior=`): each must enter at the constrained value of ITS parameter
         for variant in ("cyl", "std"):
             yield {"kernel": {"k": "ctor_" + variant}, "mean": "constant", "lik": "gauss", "n": rnd.choice([3, 6]), "d": 2, "batch": [], "priors": "ctor", "objective": rnd.choice(["mll", "loo"]),
@@ -208,7 +213,41 @@ def _build_ctor(case, g):
 _COND = {}
 
 
-def _dense_logp(model, lik, X, y, mt):
+def _attach_added(model, b, g):
+    """register one added loss term each on: a direct child module, the kernel, two modules inside a torch.nn.ModuleList, one
+    inside a torch.nn.ModuleDict. Returns [(holder, coefficient)]: the term's value is coefficient * sum(holder.w^2)."""
+    import torch
+
+    import gpytorch
+    from vf import util
+
+    class Holder(gpytorch.Module):
+        def __init__(s):
+            super().__init__()
+            s.w = torch.nn.Parameter(util.randn(g, *b, 2))
+            s.register_added_loss_term("vf_term")
+
+    class Term(gpytorch.mlls.AddedLossTerm):
+        def __init__(s, h, c):
+            s.h, s.c = h, c
+
+        def loss(s, *params):
+            return s.c * (s.h.w**2).sum(-1)
+
+    hs = [Holder() for _ in range(5)]
+    model.vf_direct = hs[0]
+    model.vf_list = torch.nn.ModuleList([hs[1], hs[2]])
+    model.vf_dict = torch.nn.ModuleDict({"a": hs[3]})
+    model.covar_module.vf_inner = hs[4]
+    out = []
+    for i, h in enumerate(hs):
+        c = 0.1 * (i + 1) * (-1) ** i
+        h.update_added_loss_term("vf_term", Term(h, c))
+        out.append((h, c))
+    return out
+
+
+def _dense_logp(model, lik, X, y, mt, call_noise=None):
     """per batch element log N(y; mx, Kxx+S), differentiable w.r.t. the raw parameters, dense algebra only"""
     import torch
 
@@ -231,7 +270,8 @@ def _dense_logp(model, lik, X, y, mt):
         _COND["A"] = float(torch.linalg.cond(A.detach()).max())
         return util.mvn_logpdf(y.reshape(-1), mx.reshape(-1), A), n * t
     if isinstance(lik, gpytorch.likelihoods.FixedNoiseGaussianLikelihood):
-        r = lik.noise_covar.noise
+        # a noise given at call time stands in for the stored fixed noise (documented); the learned part stays
+        r = lik.noise_covar.noise if call_noise is None else call_noise
         Sn = torch.diag_embed(r.expand(*K.shape[:-2], n))
         if lik.second_noise_covar is not None:
             Sn = Sn + lik.second_noise.unsqueeze(-1) * torch.eye(n)
@@ -276,6 +316,7 @@ def run_case(case, ctx):
             with torch.no_grad():
                 early(model(X), y)
         ref_priors = attach_priors(model, case["priors"], g, case.get("reg", "closure"))
+    added = _attach_added(model, case["batch"], g) if case.get("added") else []
     mt = case["lik"] == "mt"
     if case.get("copy"):
         import copy
@@ -301,7 +342,13 @@ def run_case(case, ctx):
 
     def dense_objective():
         lp, ndata = _dense_logp(model, lik, X, y, mt)
+        for h, c in added:
+            lp = lp + c * (h.w**2).sum(-1)
         return (lp + _prior_sum(ref_priors, len(b))) / ndata
+
+    if added:
+        n_terms = len(list(model.added_loss_terms()))
+        ctx.expect("added_terms_enumerated", n_terms == len(added), f"added_loss_terms() yields {n_terms} terms, {len(added)} were registered (direct child, kernel, ModuleList, ModuleDict)")
 
     if obj == "loo":
         with torch.no_grad():
@@ -356,6 +403,17 @@ def run_case(case, ctx):
         r = torch.zeros_like(p) if r is None else r
         ctx.close("mll_grad", a, r, (gt, gt), cls=cls + ":grad")
         nz = nz or float(r.abs().max()) > 1e-6
+    if isinstance(lik, gpytorch.likelihoods.FixedNoiseGaussianLikelihood) and not case.get("copy"):
+        # keyword arguments of the objective reach the likelihood: per-call observation noise
+        s_call = util.rand(util.gen(case["seed"] + 5), *b, case["n"]) * 0.4 + 0.03
+        with torch.no_grad():
+            lp, ndata = _dense_logp(model, lik, X, y, False, call_noise=s_call)
+            for h, c in added:
+                lp = lp + c * (h.w**2).sum(-1)
+            ref_c = (lp + _prior_sum(ref_priors, len(b))) / ndata
+            with util.settings_ctx(sd, tight=False):
+                got_c = mll(model(X), y, noise=s_call)
+        ctx.close("mll_value", got_c, ref_c, "direct", cls=cls + ":call_time_noise")
     ctx.cell({k: v for k, v in case.items() if k != "seed"}, nontrivial=case["n"] >= 2 and nz)
 
 
